@@ -180,9 +180,16 @@ def check(cx):
     if not writes:
         r4.violation('process_topic|no-write', 'TOPIC never changes the topic', loc=ft)
     empty = Atom(('empty', ('some_of', TOPIC)))
-    for e, x in writes:
-        f = subst(e.pc, ('empty', ('some_of', TOPIC)), True)
-        f2 = subst(e.pc, ('empty', ('some_of', TOPIC)), False)
+
+    class _W:       # one assignment with a conditional value counts as one write per case of the value
+        def __init__(self, e, pc):
+            self.pc, self.node, self.seq = pc, e.node, e.seq
+    writes_x = []
+    for e0, x0 in writes:
+        for c_, leaf in term_cases(x0['value']):
+            if sat(And(e0.pc, c_)) is not None:
+                writes_x.append((_W(e0, And(e0.pc, c_)), dict(x0, value=leaf)))
+    for e, x in writes_x:
         ok, m = entails(e.pc, W)
         if not ok:
             r4.violation('process_topic|unguarded-write', 'the topic can be changed without membership / +t rank: %s' % model_str(m),
